@@ -10,14 +10,16 @@ Clean(k) == k.mut = <<>> /\ k.all_put
 \* st = [off, p (P-layer verdict so far), i (I-layer verdict so far), live (no raise seen yet)]
 GetStep(buf, clean, st, g) ==
   IF ~st.live THEN [st EXCEPT !.p = FALSE]                    \* something was read after an error
-  ELSE LET r == DoGet(buf, st.off, g) IN
+  ELSE LET r == DoGet(buf, st.off, g)                         \* the statement's reader
+           ri == ImplDoGet(buf, st.off, g)                    \* today's reader
+       IN
        IF g.op = "more" THEN [st EXCEPT !.i = @ /\ g.ok /\ g.v = r.v]
        ELSE IF g.ok
             THEN \* a get may succeed only where the statement allows it, and then returns exactly the bytes at the cursor
-                 [off |-> IF r.ok THEN r.off ELSE st.off, p |-> st.p /\ r.ok /\ g.v = r.v, i |-> st.i, live |-> TRUE]
+                 [off |-> IF r.ok THEN r.off ELSE st.off, p |-> st.p /\ r.ok /\ g.v = r.v, i |-> st.i /\ ri.ok /\ g.v = ri.v, live |-> TRUE]
             ELSE \* a refusal is always safe; on an intact buffer the round trip requires success (P), on a corrupted one
                  \* refusing more than necessary is only a deviation from today's behaviour (I)
-                 [off |-> st.off, p |-> st.p /\ (clean => ~r.ok), i |-> st.i /\ ~r.ok, live |-> FALSE]
+                 [off |-> st.off, p |-> st.p /\ (clean => ~r.ok), i |-> st.i /\ ~ri.ok, live |-> FALSE]
 Replay(k) == FoldLeft(LAMBDA st, g : GetStep(Buf(k), Clean(k), st, g), [off |-> 0, p |-> TRUE, i |-> TRUE, live |-> TRUE], k.gets)
 \* ---- round trip on values: puts all accepted, nothing mutated, gets mirror the puts ----
 DataPuts(k) == SelectSeq(k.puts, LAMBDA p : p.op # "type")
